@@ -6,7 +6,7 @@ from pv import common
 RULE = ("generated discovery states (real Discovery filled with publish=False: 2-5 agents, 1-6 computations, random replica "
         "sets incl. empty ones and replicas only on departed agents), real ComputationGraph with random neighbour "
         "structure, EVERY non-empty departed subset: candidate agents / computations / candidate info compared with a "
-        "set-based oracle; the four repair constraints (hosted, capacity, hosting, communication) built for generated "
+        "set-based oracle; the four repair constraints (hosted, capacity, hosting, communication), each assignment given as keywords in scope order, keywords and dict in another order and through a slice, built for generated "
         "candidate sets and evaluated on EVERY binary assignment of their scope against the defining formulas with a "
         "harness comm/footprint/hosting table; non-trivial = >= 2 orphaned computations with an orphaned neighbour, or a "
         "constraint over >= 3 binary variables; distinct by hash(state, departed) / hash(constraint instance)")
@@ -101,6 +101,26 @@ def check_removal(st, R):
     return P
 
 
+def ways(con, asg, rng):
+    """the same assignment handed to the constraint in different forms: keywords in scope order, keywords in another
+    order, a dict in another order, and through a slice on some of the variables -> [(how, value)]"""
+    out = [("kwargs", con(**asg))]
+    keys = list(asg)
+    rng.shuffle(keys)
+    sh = {k: asg[k] for k in keys}
+    out.append(("kwargs-reordered", con(**sh)))
+    try:
+        out.append(("dict-reordered", con.get_value_for_assignment(dict(sh))))
+    except (NotImplementedError, AttributeError):
+        pass
+    if len(keys) >= 2:
+        k = rng.randint(1, len(keys) - 1)
+        fixed = {n: asg[n] for n in keys[:k]}
+        rest = {n: asg[n] for n in keys[k:]}
+        out.append(("slice", con.slice(fixed)(**rest)))
+    return out
+
+
 def all_binary(names):
     for vals in itertools.product([0, 1], repeat=len(names)):
         yield dict(zip(names, vals))
@@ -133,9 +153,9 @@ def check_constraints(rng, R):
         names = [v.name for v in bv.values()]
         for asg in all_binary(names):
             want_zero = sum(asg.values()) == 1
-            got = con(**asg)
-            if (got == 0) != want_zero or (not want_zero and got < 1):
-                P.append(("hosted", "hosted(%s) on %r == %r, must be 0 iff exactly one candidate is selected" % (c, asg, got)))
+            bad = [(how, got) for how, got in ways(con, asg, rng) if (got == 0) != want_zero or (not want_zero and got < 1)]
+            if bad:
+                P.append(("hosted", "hosted(%s) on %r (%s) == %r, must be 0 iff exactly one candidate is selected" % (c, asg, bad[0][0], bad[0][1])))
                 break
     elif kind == "capacity":
         a = rng.choice(agents)
@@ -146,9 +166,9 @@ def check_constraints(rng, R):
         con = rep.create_agent_capacity_constraint(a, remaining, lambda c: footprint[c], bv)
         for asg in all_binary([v.name for v in bv.values()]):
             used = sum(footprint[c] for c in cs if asg["x_%s_%s" % (c, a)])
-            got = con(**asg)
-            if (got == 0) != (used <= remaining) or (used > remaining and got < 1):
-                P.append(("capacity", "capacity(%s, remaining %s) on %r == %r, selected footprint %s" % (a, remaining, asg, got, used)))
+            bad = [(how, got) for how, got in ways(con, asg, rng) if (got == 0) != (used <= remaining) or (used > remaining and got < 1)]
+            if bad:
+                P.append(("capacity", "capacity(%s, remaining %s) on %r (%s) == %r, selected footprint %s" % (a, remaining, asg, bad[0][0], bad[0][1], used)))
                 break
     elif kind == "hosting":
         a = rng.choice(agents)
@@ -161,9 +181,9 @@ def check_constraints(rng, R):
             for c in cs:
                 if asg["x_%s_%s" % (c, a)]:
                     want = want + hosting[(c, a)]
-            got = con(**asg)
-            if abs(got - want) > 1e-9:
-                P.append(("hosting", "hosting(%s) on %r == %r, defining sum %r" % (a, asg, got, want)))
+            bad = [(how, got) for how, got in ways(con, asg, rng) if abs(got - want) > 1e-9]
+            if bad:
+                P.append(("hosting", "hosting(%s) on %r (%s) == %r, defining sum %r" % (a, asg, bad[0][0], bad[0][1], want)))
                 break
     else:
         a = rng.choice(agents)
@@ -199,10 +219,10 @@ def check_constraints(rng, R):
                 for n, ags in candn.items():
                     for g in ags:
                         want += x * asg["x_%s_%s" % (n, g)] * comm(cand, n, g)
-                got = con(**asg)
-                if abs(got - want) > 1e-9:
-                    P.append(("comm:value", "comm(%s,%s) on %r == %r, defining double sum %r (fixed %r, candidate neighbours %r)" % (
-                        a, cand, asg, got, want, fixedn, candn)))
+                bad = [(how, got) for how, got in ways(con, asg, rng) if abs(got - want) > 1e-9]
+                if bad:
+                    P.append(("comm:value", "comm(%s,%s) on %r (%s) == %r, defining double sum %r (fixed %r, candidate neighbours %r)" % (
+                        a, cand, asg, bad[0][0], bad[0][1], want, fixedn, candn)))
                     break
         W["nvars"] = len(scope)
     R.count("constraints_checked")
